@@ -74,6 +74,28 @@ Proof.
   cbn [flat_map] in E. apply app_eq_nil in E. destruct E as [E _]. now apply enc_sgrc_nonnil in E.
 Qed.
 
+(* ------------------------------------------------------------------ hyperlinks (OSC 8) *)
+
+(* cutString(s, ";") cuts at the FIRST ';': params has none, so everything after the
+   separator - further ';' included - is the URI *)
+Lemma cut59_first a b : existsb (Z.eqb 59) a = false -> cut59 (a ++ 59 :: b) = (a, b, true).
+Proof.
+  induction a as [|x a IH]; intros H; cbn [app cut59]; [reflexivity|].
+  cbn [existsb] in H. apply orb_false_elim in H. destruct H as [Hx Ha].
+  rewrite Z.eqb_sym in Hx. rewrite Hx, (IH Ha). reflexivity.
+Qed.
+
+Lemma sim_link_osc t ps uri : no_semicolon ps = true ->
+  osc t ([56; 59] ++ ps ++ [59] ++ uri) = TOk (set_pen t (mkStyle (spen (t_pen t)) uri ps)).
+Proof.
+  intros Hps. unfold no_semicolon in Hps. apply negb_true_iff in Hps.
+  unfold osc. change (cut59 ([56; 59] ++ ps ++ [59] ++ uri)) with ([56], ps ++ 59 :: uri, true).
+  cbv iota beta. cbn [negb].
+  change (key_is [56] [48]) with false. change (key_is [56] [50]) with false.
+  change (key_is [56] [56]) with true. cbv iota. cbn [orb].
+  rewrite (cut59_first ps uri Hps). reflexivity.
+Qed.
+
 (* ------------------------------------------------------------------ dispatch *)
 
 Lemma with_ps_p1 p f : with_ps (p1 p) f = f (clamp_ps (pval p)).
@@ -174,6 +196,11 @@ Proof.
     exists t'; split; [reflexivity|]; split; assumption.
   - (* SGR *) change (csi t [] (flat_map enc_sgrc cs) 109) with (sgr t (flat_map enc_sgrc cs)).
     unfold sgr. rewrite (sim_sgr_pen cs (spen (t_pen t)) Hok).
+    eexists; split; [reflexivity|]. split.
+    + apply (Inv_frame w h t); auto. apply WFs_set_pen, HI.
+    + rewrite (abs_fields t); reflexivity.
+  - (* Link *) apply andb_prop in Hok; destruct Hok as [Hok _]. apply andb_prop in Hok; destruct Hok as [Hps _].
+    rewrite (sim_link_osc t params uri Hps).
     eexists; split; [reflexivity|]. split.
     + apply (Inv_frame w h t); auto. apply WFs_set_pen, HI.
     + rewrite (abs_fields t); reflexivity.
